@@ -26,7 +26,7 @@ structure FrameInfo where
 deriving Repr, Inhabited
 
 inductive Outcome where
-  | ok | app | eof | canceled | deadline | toobig | notfound | writeerr | other
+  | ok | app | eof | canceled | deadline | toobig | notfound | writeerr | encodeerr | other
 deriving DecidableEq, Repr, Inhabited
 
 inductive Ev where
@@ -50,6 +50,8 @@ inductive Ev where
   | stuck (g site : String)
   | replyerr (ep : Nat) (seq : Int) (cls : String)   -- the server logged that it could not send a reply
   | inj (ep : Nat) (kind : String)   -- a scripted frame injected into the traffic towards `ep`
+  | badarg (c : Nat)   -- the argument of this caller's RPC cannot be encoded
+  | regb (ep : Nat) | rege (ep : Nat)   -- a protocol registered while the transport runs
   | harness (msg : String)
 deriving Repr, Inhabited
 
@@ -114,6 +116,7 @@ def parseOutcome (s : String) : Outcome :=
   else if s = "toobig" then .toobig
   else if s = "notfound" then .notfound
   else if s = "writeerr" then .writeerr
+  else if s = "encodeerr" then .encodeerr
   else .other
 
 def intOr (s : String) (d : Int) : Int := (parseInt? s).getD d
@@ -143,6 +146,9 @@ def parseEv (toks : List String) : Ev :=
   | ["leak", f] => .leak f
   | ["stuck", g, s] => .stuck g s
   | ["inj", ep, k] => .inj (natOr ep 0) k
+  | ["badarg", c] => .badarg (natOr c 0)
+  | ["regb", ep] => .regb (natOr ep 0)
+  | ["rege", ep] => .rege (natOr ep 0)
   | ["replyerr", ep, q, c] => .replyerr (natOr ep 0) (intOr q (-1)) c
   | _ => .harness (" ".intercalate toks)
 
